@@ -83,6 +83,22 @@ def _run_task(i):
             pass
 
 
+def _rt_records(t):
+    """records of a run-time task; an exception that escapes from REPOSITORY code (innermost frame under /repo) on a well-formed input is a failed
+    obligation, not a checker error -- exceptions raised by the checker's own code stay engine errors"""
+    try:
+        yield from t.harness(*t.args)
+    except (S.Unsupported, _TaskTimeout, KeyboardInterrupt, MemoryError):
+        raise
+    except Exception as e:
+        tb = traceback.extract_tb(e.__traceback__)
+        if tb and os.path.realpath(tb[-1].filename).startswith('/repo/'):
+            yield dict(name='rt:no-unexpected-exception-in-repository-code', ok=False, witness=dict(args=repr(t.args)[:300]),
+                       detail='%s: %s\n%s' % (type(e).__name__, e, ''.join(traceback.format_exception(type(e), e, e.__traceback__, limit=-6))))
+        else:
+            raise
+
+
 def _run_task_inner(i, t, t0):
     try:
         if t.kind == 'sym':
@@ -98,7 +114,7 @@ def _run_task_inner(i, t, t0):
         else:
             checks = {}
             n = 0
-            for rec in t.harness(*t.args):
+            for rec in _rt_records(t):
                 n += 1
                 d = checks.setdefault(rec['name'], dict(proved=0, failed=0, unknown=0, witnesses=[]))
                 if rec['ok']:
